@@ -379,7 +379,7 @@ def validate(seq, _depth=0):
         elif k in ("brk", "rec"):
             assert len(n) == 1
         elif k in ("if", "list"):
-            assert len(n) == 2 and isinstance(n[1], list) and 1 <= len(n[1]) <= 6
+            assert len(n) == 2 and isinstance(n[1], list) and 1 <= len(n[1]) <= 8
             for b in n[1]:
                 validate(b, _depth + 1)
         elif k == "for":
